@@ -516,7 +516,7 @@ class SchemaValidationContext:
                     f"Type {type_} cannot implement {iface.name}"
                     " because it would create a circular reference."
                     if transitive is type_
-                    else f"Type {type_} must implement {transitive.name}"
+                    else f"Type {type_} must implement {transitive}"
                     f" because it is implemented by {iface.name}.",
                     get_all_implements_interface_nodes(iface, transitive)
                     + get_all_implements_interface_nodes(type_, iface),
